@@ -50,6 +50,15 @@ func c16RowScaleCase(o *hx.Out, kindNo int, tabs *vb.Tables, in bsInput, class s
 		return nil
 	}
 	var tx []hx.Sx
+	var tags []string
+	addTag := func(tag string) {
+		for _, t := range tags {
+			if t == tag {
+				return
+			}
+		}
+		tags = append(tags, tag)
+	}
 	negMin, allNeg, mixed, interesting := 0, 0, 0, false
 	for _, t := range tabs.Tables {
 		var text bytes.Buffer
@@ -60,6 +69,7 @@ func c16RowScaleCase(o *hx.Out, kindNo int, tabs *vb.Tables, in bsInput, class s
 		var rows []hx.Sx
 		for _, rk := range t.Rows {
 			var cells []hx.Sx
+			var present []float64
 			mn, mnSigned := 0.0, 0.0
 			nneg, npos, nzero, n := 0, 0, 0, 0
 			for _, ck := range t.Cols {
@@ -70,6 +80,7 @@ func c16RowScaleCase(o *hx.Out, kindNo int, tabs *vb.Tables, in bsInput, class s
 				}
 				c := cell.Summary.Center
 				cells = append(cells, hx.L(hx.F64(c)))
+				present = append(present, c)
 				n++
 				switch {
 				case c < 0:
@@ -82,6 +93,21 @@ func c16RowScaleCase(o *hx.Out, kindNo int, tabs *vb.Tables, in bsInput, class s
 				if a := math.Abs(c); a != 0 && (mn == 0 || a < mn) {
 					mn, mnSigned = a, c
 				}
+			}
+			// known findings of C10, recognised from the row's centres and the unit
+			// alone (c10.go): the rounding of the quotient showing in a printed centre,
+			// bytes spelled in a way ClassOf does not know
+			specCls := 0
+			for _, tok := range c10NumeratorTokens(t.Unit) {
+				if tok == "B" || tok == "MB" || tok == "bytes" {
+					specCls = 1
+				}
+			}
+			if c10QuotientRounded(present, specCls) {
+				addTag("C10_quotient_rounded_before_printing")
+			}
+			if c10ClassSpelling(t.Unit) {
+				addTag("C10_classof_byte_spellings")
 			}
 			sc := t.RowScaler(rk, cls)
 			ref := benchunit.CommonScale([]float64{mn}, cls)
@@ -110,7 +136,7 @@ func c16RowScaleCase(o *hx.Out, kindNo int, tabs *vb.Tables, in bsInput, class s
 		o.Count("rowscale:has-row-zero+negative+positive")
 	}
 	o.Add(hx.L(hx.I(kindNo), hx.List(tx)), c16RowsIn{Kind: "row-scale", Class: class, Input: in},
-		"rowscale:"+fmt.Sprint(in), interesting)
+		"rowscale:"+fmt.Sprint(in), interesting, tags...)
 	return nil
 }
 
